@@ -1,6 +1,6 @@
 SPECIFICATION Spec
 CONSTANTS
   TraceFile = "trace.ndjson"
-INVARIANT InvC01
+INVARIANT InvC18
 POSTCONDITION Accepted
 CHECK_DEADLOCK FALSE
